@@ -33,11 +33,16 @@ SelOf(e) ==
     [] e.form = "start" -> StartForm(e.base, e.s, Rng(e.extra))
     [] e.form = "end"   -> EndForm(e.base, e.s, Rng(e.extra))
     [] e.form = "auto"  -> AutoForm(e.base, Rng(e.exc))
+    [] e.form \in {"names_over_start", "names_over_end"} ->
+          LET inner == IF e.form = "names_over_start" THEN StartForm(e.base, e.s, {}) ELSE EndForm(e.base, e.s, {}) IN
+          IF inner.tag # "ok" THEN inner ELSE [tag |-> "ok", po |-> inner.po \cup Rng(e.po), kwo |-> inner.kwo \cup Rng(e.kwo)]
 StepsAdmissible(e, sel) ==
   /\ sel.tag = "ok"
   /\ Admissible(e.base, sel.po, sel.kwo)
   /\ (e.form = "names" /\ e.order = "po_first")  => Admissible(e.base, sel.po, {})
   /\ (e.form = "names" /\ e.order = "kwo_first") => Admissible(e.base, {}, sel.kwo)
+  /\ (e.form = "names_over_start") => (Admissible(e.base, {}, StartForm(e.base, e.s, {}).kwo) /\ Admissible(e.base, Rng(e.po), StartForm(e.base, e.s, {}).kwo))
+  /\ (e.form = "names_over_end") => Admissible(e.base, EndForm(e.base, e.s, {}).po, {})
 
 Self == <<"SELF", 0>>
 FullArgs(e, c) == IF e.bound THEN <<Self>> \o ArgsOf(c) ELSE ArgsOf(c)
